@@ -177,7 +177,7 @@ def gen_cfg(rng, prop, tier):
             cfg["classes"] = ["HMixEq"] * len(cfg["classes"])
             cfg["twin"] = {"HMixEq": "HLightEq"}
     else:
-        cfg = struct.gen_cfg(rng, "C02", tier)
+        cfg = struct.gen_cfg(rng, "C02", tier, allow_big=False)
         cfg["prop"] = "C17"
         base = rng.choice(("HNode", "HNode", "HMix", "HAny", "HLight", "HLightDict"))
         cfg["family"] = FAMILY[base]
